@@ -193,7 +193,18 @@ def h_acquire(pre, mode):
     E.obj = ctl
     peer = world.IP1
     a = None
-    if pre == 'established' or pre.startswith('busy_'):
+    if pre == 'half_open_responder':
+        # the peer started an initial exchange with us and never came back after our IKE_SA_INIT response (it crashed - or the request was not its
+        # own: the source address of a UDP datagram proves nothing): a responder IKE_SA waits for an IKE_AUTH request that never arrives
+        a = ik.IkeSa(is_initiator=True, peer_spi=b'\0' * 8, configuration=conf.get_ike_configuration(world.IP1, world.IP2), my_addr=world.IP1, peer_addr=world.IP2)
+        A = world.Endpoint('A', a)
+        TS = m.TrafficSelector
+        d = A.call(a.process_acquire, TS.from_network(ip_network('10.1.0.5/32'), 0, TS.IpProtocol.ANY), TS.from_network(ip_network('10.2.0.5/32'), 0, TS.IpProtocol.ANY), 1)
+        with E:
+            d = ctl.dispatch_message(d, world.IP2, world.IP1)
+        if d is None or len(ctl.ike_sas) != 1 or ctl.ike_sas[0].state != S.INIT_RES_SENT:
+            return ['n/a', 'no half-open responder IKE_SA']
+    if pre in ('established', 'rekeyed_old') or pre.startswith('busy_'):
         # the peer (alice) establishes an IKE_SA with the controller first
         a = ik.IkeSa(is_initiator=True, peer_spi=b'\0' * 8, configuration=conf.get_ike_configuration(world.IP1, world.IP2), my_addr=world.IP1, peer_addr=world.IP2)
         A = world.Endpoint('A', a)
@@ -211,6 +222,15 @@ def h_acquire(pre, mode):
             to_ctl = not to_ctl
         if not ctl.ike_sas or ctl.ike_sas[0].state != S.ESTABLISHED:
             return ['n/a', 'peer could not establish']
+    if pre == 'rekeyed_old':
+        # the peer has rekeyed the IKE_SA; its DELETE for the old one is still on its way: old (REKEYED) and successor are both in the table
+        world.ENV.now = a.rekey_ike_sa_at + 10
+        rk = A.call(a.check_rekey_ike_sa_timer)
+        with E:
+            rr = ctl.dispatch_message(rk, world.IP2, world.IP1)
+        A.call(a.process_message, rr)
+        if len(ctl.ike_sas) != 2 or ctl.ike_sas[0].state != S.REKEYED or ctl.ike_sas[1].state != S.ESTABLISHED:
+            return ['n/a', 'rekey did not leave old + successor']
     first = None
     if pre.startswith('busy_'):
         # the established IKE_SA with that peer has a request of its own outstanding (liveness probe, CHILD_SA rekey / delete)
@@ -274,6 +294,12 @@ def h_acquire(pre, mode):
     if peer_addr != which_peer or my_addr != world.IP2:
         return {'class': ['acquire'], 'violation': 'the negotiation is not started with the peer of the ACQUIRE'}
     sa = [e for e in ctl.ike_sas if e.peer_addr == which_peer]
+    if pre in ('half_open_responder', 'rekeyed_old') and which_peer == world.IP1:
+        # beside the IKE_SA that cannot take the ACQUIRE (it waits for a peer that may never come back / it has been replaced) there is exactly one
+        # that negotiates it: a new initiator IKE_SA resp. the successor
+        sa = [e for e in sa if e.state not in (S.INIT_RES_SENT, S.REKEYED)]
+        if len(ctl.ike_sas) != (n_before + 1 if pre == 'half_open_responder' else n_before):
+            return {'class': ['acquire'], 'violation': f'{len(ctl.ike_sas)} IKE_SAs in the table after the ACQUIRE ({pre})'}
     if len(sa) != 1:
         return {'class': ['acquire'], 'violation': f'{len(sa)} IKE_SAs with that peer after the ACQUIRE (an existing one must be reused)'}
     sa = sa[0]
@@ -368,7 +394,7 @@ def build_instances(tier):
         inst.append(Instance(f'random indices conns={nc} entries={ne}', h_random_index, (nc, ne), native=nat(h_random_index)))
     for pre in ('busy_dpd', 'busy_new_child'):
         inst.append(Instance(f'acquire {pre}', h_acquire, (pre, 1), native=nat(h_acquire), must_reach=[('queued', lambda o: o == ['acquire', 'queued'])]))
-    for pre in ('fresh', 'established', 'in_flight'):
+    for pre in ('fresh', 'established', 'in_flight', 'half_open_responder', 'rekeyed_old'):
         for mode in (0, 1):
             inst.append(Instance(f'acquire {pre} mode={mode}', h_acquire, (pre, mode), native=nat(h_acquire),
                                  must_reach=[('negotiating', lambda o: o[:2] == ['acquire', 'negotiating']), ('ignored', lambda o: o == ['acquire', 'ignored'])] + ([('queued', lambda o: o == ['acquire', 'queued'])] if pre == 'in_flight' else [])))
